@@ -30,6 +30,7 @@ def sh(cmd, cwd=None, extra=None):
 subprocess.run(["git", "-C", "/repo", "worktree", "remove", "--force", wt], capture_output=True)
 rc, out = sh(["git", "-C", "/repo", "worktree", "add", "-q", "--detach", wt, "HEAD"])
 meta = dict(property=prop, change=int(i), ran=[])
+meta["repo_head"] = subprocess.run(["git", "-C", "/repo", "rev-parse", "--short", "HEAD"], capture_output=True, text=True).stdout.strip()
 try:
     shutil.copy(demo, os.path.join(wt, "zz_demo_test.go"))
     rc, out = sh("go test -vet=off -count=1 ./... 2>&1 | tail -3", cwd=wt)
@@ -73,6 +74,11 @@ try:
             else:
                 results[c] = dict(caught=False, last=out.strip().splitlines()[-1][:200] if out.strip() else "")
             meta["ran"].append("VERIF_REPO=<patched worktree> ./check %s --tier quick" % c)
+        prev = {}
+        if os.path.exists(os.path.join(stored, "meta.json")):
+            prev = json.load(open(os.path.join(stored, "meta.json"))).get("checks", {})
+        for c, r in prev.items():      # verdicts of checks not re-run now are kept
+            results.setdefault(c, r)
         meta["checks"] = results
 finally:
     subprocess.run(["git", "-C", "/repo", "worktree", "remove", "--force", wt], capture_output=True)
